@@ -49,7 +49,7 @@ theorem child_pub_cases (C : WalletCrypto) (w : HDWallet) (i : Nat)
       | none => .error .panic
       | some P =>
         match Secp.add (Secp.mul (beVal ((C.hmac512 w.chCode (w.key ++ beBytes 4 i)).take 32)) Secp.G) (some P) with
-        | none => .error .outside
+        | none => .error .panic
         | some Q => .ok { pfx := w.pfx, depth := (w.depth + 1) % 256, checksum := (C.hash160 w.key).take 4, idx := i,
                           chCode := (C.hmac512 w.chCode (w.key ++ beBytes 4 i)).drop 32, key := Secp.ser33 (some Q) } := by
   unfold child
